@@ -577,6 +577,33 @@ func Retype(v reflect.Value, t reflect.Type) reflect.Value {
 	return reflect.NewAt(t, unsafe.Pointer(p.Pointer())).Elem()
 }
 
+// SafeRetype reports whether viewing v as a t is safe to *dereference and compare* (goom compares When values with
+// reflect.DeepEqual, which follows pointers): identical flattened layout, and no pointer-like leaf unless v is all zero
+// (a pointer field that points at a differently typed object would be followed as the declared pointee type).
+func SafeRetype(v reflect.Value, t reflect.Type) bool {
+	from := v.Type()
+	pointerish := func(l string) bool {
+		for _, c := range []string{":ptr", ":str", ":slice", ":iface", ":map", ":chan", ":func", ":uptr"} {
+			if strings.Contains(l, c) {
+				return true
+			}
+		}
+		return false
+	}
+	switch {
+	case from.Kind() == reflect.Struct && t.Kind() == reflect.Struct:
+		l := Layout(from)
+		return l == Layout(t) && (!pointerish(l) || v.IsZero())
+	case from.Kind() == reflect.Ptr && t.Kind() == reflect.Ptr:
+		if v.IsNil() {
+			return true
+		}
+		l := Layout(from.Elem())
+		return l == Layout(t.Elem()) && !pointerish(l)
+	}
+	return false
+}
+
 // ShapeOf is the canonical description of a reflect.Value's content class, chosen by its (flag) kind:
 // nil | nonnil for the nilable kinds, iface:nil | iface:<catalogue name of the dynamic type>, val otherwise.
 func ShapeOf(v reflect.Value) string {
